@@ -282,6 +282,7 @@ class Check:
         self.t0 = time.time()
         self.evaluations = 0
         self.distinct = set()
+        self._sampled = {}
         self.samples = []
         self.hist = {}
         self.violations = []      # (desc, detail) not matched by a known finding
@@ -306,6 +307,9 @@ class Check:
     def note_case(self, family, key, nontrivial=True):
         self.evaluations += 1
         self.count(family)
+        # one written-out case per family (up to 8), unless the check supplies its own samples
+        if family not in self._sampled and len(self._sampled) < 8:
+            self._sampled[family] = {"family": family, "case": str(key)[:400]}
         if nontrivial:
             self.distinct.add(hashlib.blake2b(("%s|%s" % (family, key)).encode(), digest_size=8).digest())
 
@@ -378,7 +382,7 @@ class Check:
             "evaluations": self.evaluations,
             "distinct_nontrivial": len(self.distinct),
             "rule": rule,
-            "samples": self.samples,
+            "samples": self.samples or list(self._sampled.values()),
             "input_distribution": self.hist,
             "obligations": proof.get("obligations", 0),
             "discharged": proof.get("discharged", 0),
@@ -389,6 +393,12 @@ class Check:
             "known_findings_hit": {k: v[0] for k, v in self.known_hits.items()},
             "correspondence_mismatches": len(self.corr_breaks),
         }
+        if proof_broken or not proof.get("obligations"):
+            # not a proof-level result on this run: the schema's proof keys promise discharged >= 1
+            level = "other"
+            cov["checker_cmd_attempted"] = cov.pop("checker_cmd")
+            cov["explanation"] = ("proof obligations of this property did not all check on this tree (%d of %d); the run below is "
+                                  "the search for a failing input" % (proof.get("discharged", 0), proof.get("obligations", 0)))
         if self.exhaustive is not None:
             cov["exhaustive"] = self.exhaustive
         cov.update(self.extra)
